@@ -17,6 +17,7 @@ import DuneVerif.Proofs.C10Div
 import DuneVerif.Proofs.C10Conv
 import DuneVerif.Proofs.C10Prog
 import DuneVerif.Proofs.C10Hist
+import DuneVerif.Proofs.C10Mem
 
 namespace DV.C10
 open DV.C10.Gen
@@ -593,5 +594,31 @@ theorem mpi_type_spec (k : Nat) :
   omega
 
 example : mpiCount 100 = 7 ∧ mpiBlocks * mpiCount 100 * mpiElemBits = 112 := by decide
+
+/-! ### memory level: the compound operators work in place, and the right operand may be the destination itself -/
+
+/-- ALIASING.  The compound operators executed on the indexed store of the destination (`Model/C10Mem.lean`: explicit
+    reads `digit[i]`, `x.digit[i]` and writes `digit[i] = …` per round; with `ali = true` the operand `x` is the very
+    same store, read at the time of each access, as in `a += a`, `a -= a`, `a &= a`, `a *= a`, `a /= a`) return exactly
+    what the value-level operators return on the two values — for every operator, every width and all operands.
+    Together with `applyBin`'s value theorems: `a op= a` is `val a op val a` modulo W. -/
+theorem alias_refines (k : Nat) (o : BinOp) (ali : Bool) {n : Nat} {a x : List Nat} (ha : Wf n a) (hx : Wf n x) :
+    applyBinMem k o ali a x = applyBin k o a (if ali then a else x) :=
+  applyBinMem_eq k o ali (by rw [hx.1, ha.1])
+
+example : Wf 2 [0xffff, 0x8000] ∧ applyBinMem 32 .add true [0xffff, 0x8000] [] = .ok [0xfffe, 1] ∧
+    applyBinMem 32 .sub true [0xffff, 0x8000] [] = .ok [0, 0] ∧
+    applyBinMem 32 .sub false [0, 0] [1, 0] = .ok [0xffff, 0xffff] := by decide
+
+/-- whole histories run with `d op= s` on the store (what the driver executes) are the histories of `hist_refines` -/
+theorem hist_mem_refines {k : Nat} (p : List Stmt) (r : Regs) (hr : WfRegs (ndigits k) r) :
+    runMem k r p = run4 k r p ∧
+    (runMem k r p).map (fun q => (q.1.map Obs.abs, q.2.abs)) = specRun4 (ndigits k) r.abs p := by
+  have h := runMem_eq (k := k) p r hr
+  exact ⟨h, by rw [h]; exact (run4_refines p r hr).1⟩
+
+example : WfRegs (ndigits 32) ⟨[0xffff, 0x8000], [1, 0]⟩ ∧
+    runMem 32 ⟨[0xffff, 0x8000], [1, 0]⟩ [.old (.bin .add .a .a), .old (.bin .sub .b .a), .old (.bin .bxor .a .a)] =
+    some ([.val [0xfffe, 1], .val [3, 0xfffe], .val [0, 0]], ⟨[0, 0], [3, 0xfffe]⟩) := by decide
 
 end DV.C10
